@@ -9,13 +9,14 @@ import (
 
 // Field is one field of a layout descriptor.
 type Field struct {
-	K  string `json:"k"`
-	V  int64  `json:"v"`
-	Hi int64  `json:"hi"`
-	Lo int64  `json:"lo"`
-	B  []int  `json:"b"`
-	N  int    `json:"n"`
-	ID int    `json:"id"`
+	K   string `json:"k"`
+	V   int64  `json:"v"`
+	Hi  int64  `json:"hi"`
+	Lo  int64  `json:"lo"`
+	B   []int  `json:"b"`
+	N   int    `json:"n"`
+	ID  int    `json:"id"`
+	Off int    `json:"off"`
 }
 
 // LD is a sequence of fields.
@@ -50,7 +51,7 @@ func (l LD) Len() int {
 			n += 4
 		case "raw":
 			n += len(f.B)
-		case "fill":
+		case "fill", "fillo":
 			n += f.N
 		}
 	}
@@ -101,6 +102,10 @@ func (l LD) Expand(seed int) ([]byte, error) {
 			}
 		case "fill":
 			out = append(out, FillBytes(f.N, f.ID, seed)...)
+		case "fillo":
+			for j := 0; j < f.N; j++ {
+				out = append(out, FillByte(f.ID, f.Off+j, seed))
+			}
 		default:
 			return nil, fmt.Errorf("field %d: unknown kind %q", i, f.K)
 		}
